@@ -163,18 +163,28 @@ def rule_sel_pair(ctx):
     fn = ctx.fn('codegen', 'codegen::selection::calculate_selection')
     if fn is None:
         return [bad('SEL-PAIR', 'floor', 'anchor-missing: calculate_selection not found')]
-    senv = H.sym_env(fn)
     types = []
     uses = []
-    for n in fn.walk(lambda x: x['k'] == 'struct' and all('e' in y for y in x.get('fields', []))):
-        adt = n.get('adt', '')
-        f = {x['name']: x['e'] for x in n['fields']}
-        if adt.endswith('ExpandedType'):
-            types.append(TM.strip_bases(ctx.pv.eval(fn, f['name'], senv, 0)))
-        elif adt.endswith('ExpandedField') and 'field_type' in f:
-            uses.append(('field', n, ctx.pv.eval(fn, f['field_type'], senv, 0)))
-        elif adt.endswith('ExpandedVariant') and 'variant_type' in f:
-            uses.append(('variant', n, ctx.pv.eval(fn, f['variant_type'], senv, 0)))
+    # the expander and the private helpers it is split into (each literal is evaluated in its own function)
+    fam = [fn]
+    fl_ = H.Flat(ctx, fn, 2)
+    for owner, _n, _p in fl_.entries:
+        if owner not in fam and not owner.from_macro and norm_path(owner.path).startswith('graphql_client_codegen::codegen::selection'):
+            fam.append(owner)
+    for fn_ in fam:
+        senv = H.sym_env(fn_)
+        for n in fn_.walk(lambda x: x['k'] == 'struct' and all('e' in y for y in x.get('fields', []))):
+            adt = n.get('adt', '')
+            f = {x['name']: x['e'] for x in n['fields']}
+            if adt.endswith('ExpandedType'):
+                t_ = TM.strip_bases(ctx.pv.eval(fn_, f['name'], senv, 0))
+                for _c, l_ in P.leaves(t_):
+                    types.append(l_)
+                types.append(t_)
+            elif adt.endswith('ExpandedField') and 'field_type' in f:
+                uses.append(('field', n, ctx.pv.eval(fn_, f['field_type'], senv, 0)))
+            elif adt.endswith('ExpandedVariant') and 'variant_type' in f:
+                uses.append(('variant', n, ctx.pv.eval(fn_, f['variant_type'], senv, 0)))
 
     def core_of(t):
         while t[0] == 'ctor' and t[1].endswith(('Cow::Owned', 'Cow::Borrowed')) and t[2]:
@@ -268,26 +278,57 @@ def rule_variants(ctx):
     fn = ctx.fn('codegen', 'codegen::selection::calculate_selection')
     if fn is None:
         return [bad('VARIANTS-EXHAUSTIVE', 'floor', 'anchor-missing: calculate_selection not found')]
-    senv = H.sym_env(fn)
+    entry = fn
+    fl = H.Flat(ctx, entry, 2)
+    fam = [entry]
+    for owner, _n, _p in fl.entries:
+        if owner not in fam and not owner.from_macro and norm_path(owner.path).startswith('graphql_client_codegen::codegen::selection'):
+            fam.append(owner)
     loops = []
-    for loop in fn.walk(lambda x: x['k'] == 'for'):
-        t = ctx.pv.eval(fn, loop['iter'], senv, 0)
-        fs = TM.fields_in(t)
-        if 'StoredUnion.variants' in fs or 'StoredObject.implements_interfaces' in fs:
-            loops.append((loop, t, fs))
+    for f_ in fam:
+        env_ = fl.env_of(f_) if f_ is not entry else H.sym_env(entry)
+        for loop in f_.walk(lambda x: x['k'] == 'for'):
+            t = ctx.pv.eval(f_, loop['iter'], env_, 0)
+            fs = TM.fields_in(t)
+            if 'StoredUnion.variants' in fs or 'StoredObject.implements_interfaces' in fs:
+                loops.append((f_, loop, t, fs))
     if not loops:
         return [bad('VARIANTS-EXHAUSTIVE', 'floor', 'anchor-missing: no loop over the possible types of an interface/union', fn.loc)]
-    loop, t, fs = loops[0]
+    fn, loop, t, fs = loops[0]
     fs = set(fs)
-    for h in free_locals(fn, loop['iter']):
-        for src in fn.binds.get(h, []):
-            s_ = src
-            while s_[0] == 'proj':
-                s_ = s_[1]
-            if s_[0] == 'expr':
-                for _f, n_ in H.deep_nodes(ctx, fn, s_[1], 2):
-                    if n_['k'] == 'field' and n_.get('adt'):
-                        fs.add(n_['adt'].split('::')[-1] + '.' + n_['name'])
+
+    def source_exprs(f_, e, depth=0, seen=None):
+        """(fn, expr) pairs the value of e is computed from: initialisers of the locals it reads and, for a helper
+        parameter, the argument expressions at the call sites inside the expander family"""
+        seen = seen if seen is not None else set()
+        out = [(f_, e)]
+        if depth > 3:
+            return out
+        params = {}
+        for i_, p_ in enumerate(f_.params):
+            for h_ in pat_hids(p_):
+                params[h_] = i_
+        for h in free_locals(f_, e):
+            if (f_.key, h) in seen:
+                continue
+            seen.add((f_.key, h))
+            for src in f_.binds.get(h, []):
+                s_ = src
+                while s_[0] == 'proj':
+                    s_ = s_[1]
+                if s_[0] == 'expr':
+                    out.append((f_, s_[1]))
+            if h in params and f_.key in fl.caller:
+                cf_, cn_ = fl.caller[f_.key]
+                args_ = ([cn_['recv']] if cn_['k'] == 'mcall' else []) + cn_['args']
+                if params[h] < len(args_):
+                    out += source_exprs(cf_, args_[params[h]], depth + 1, seen)
+        return out
+    srcs = source_exprs(fn, loop['iter'])
+    for f_, e_ in srcs:
+        for _f, n_ in H.deep_nodes(ctx, f_, e_, 2):
+            if n_['k'] == 'field' and n_.get('adt'):
+                fs.add(n_['adt'].split('::')[-1] + '.' + n_['name'])
     for need, what in (('StoredUnion.variants', 'union members'), ('StoredObject.implements_interfaces', 'interface implementors')):
         if need in fs:
             obs.append(ok('VARIANTS-EXHAUSTIVE', 'calculate_selection/source-' + need.split('.')[0], 'variant list covers the %s' % what, loop.get('sp', '')))
@@ -304,12 +345,12 @@ def rule_variants(ctx):
     # the variants collection: no filter except the implements-interface test
     hid = loop['iter']['e']['res'].get('hid') if loop['iter'].get('k') in ('mcall', 'ref') and False else None
     filt = []
-    for h in free_locals(fn, loop['iter']):
-        for src in fn.binds.get(h, []):
-            if src[0] == 'expr':
-                for f_, n in H.deep_nodes(ctx, fn, src[1], 2):
-                    if n['k'] == 'mcall' and n['method'] in ('filter', 'take', 'skip', 'filter_map', 'take_while', 'skip_while', 'step_by'):
-                        filt.append((n['method'], n, f_))
+    seen_f = set()
+    for sf_, se_ in srcs[1:] if len(srcs) > 1 else []:
+        for f_, n in H.deep_nodes(ctx, sf_, se_, 2):
+            if n['k'] == 'mcall' and n['method'] in ('filter', 'take', 'skip', 'filter_map', 'take_while', 'skip_while', 'step_by') and id(n) not in seen_f:
+                seen_f.add(id(n))
+                filt.append((n['method'], n, f_))
     badf = []
     for mname, n, f_ in filt:
         clo = n['args'][0] if n['args'] else None
@@ -686,8 +727,95 @@ def rule_def_closure(ctx):
             obs.append(undecided('DEF-CLOSURE', short(f.path) + '/shape', 'no kind dispatch', f.loc))
             continue
         m = max(ms, key=lambda x: len(x['arms']))
+
+        def pat_ctor_kinds(p):
+            """constructor names (last path segment) a pattern is restricted to; None = unrestricted"""
+            if not isinstance(p, tuple) or not p:
+                return None
+            if p[0] == 'or':
+                ks = [pat_ctor_kinds(x) for x in p[1]]
+                if any(k is None for k in ks):
+                    return None
+                return set().union(*ks)
+            if p[0] == 'ctor' and p[1].split('::')[-1] not in ('Some', 'Ok', 'Err', 'None'):
+                return {p[1].split('::')[-1]}
+            if p[0] == 'ctor' and p[2]:
+                for x in p[2]:
+                    k = pat_ctor_kinds(x)
+                    if k is not None:
+                        return k
+                return None
+            if p[0] == 'guarded':
+                return pat_ctor_kinds(p[1])
+            return None
+
+        def reachable_for(node, kind, allk):
+            """can `node` run when the dispatched value is of `kind`? (only conditions that name dispatch constructors decide)"""
+            for pc in P.path_conds(f, node):
+                ks = None
+                pol = True
+                if pc[0] == 'if':
+                    t_ = ctx.pv.eval(f, pc[1], H.sym_env(f), 0)
+                    _x, c_, pol = P.canon_if(t_, pc[2])
+                    if c_[0] == 'op' and c_[1] == 'matches' and c_[2][-1][0] == 'pat':
+                        ks = pat_ctor_kinds(c_[2][-1][1])
+                    elif c_[0] == 'op' and c_[1] in ('is_some', 'is_none'):
+                        # `if let Some(id) = helper(self)`: which constructors make the helper return Some?
+                        somes = set()
+                        for cs_, lf_ in P.leaves(c_[2][0]):
+                            if lf_ != ('none',):
+                                for cc_ in cs_:
+                                    if cc_[0] == 'match':
+                                        kk = pat_ctor_kinds(cc_[2])
+                                        if kk:
+                                            somes |= kk
+                        if somes:
+                            ks = somes
+                            pol = pol if c_[1] == 'is_some' else (not pol)
+                elif pc[0] in ('match', 'letelse'):
+                    ks = pat_ctor_kinds(pc[2])
+                    if ks is None and pc[0] == 'match' and pc[1] is not None:
+                        # `if let Some(x) = helper(..)` / `match helper(..) { Some(x) => .. }`
+                        try:
+                            t_ = ctx.pv.eval(f, pc[1], H.sym_env(f), 0)
+                        except Exception:
+                            t_ = None
+                        p_ = pc[2]
+                        if t_ is not None and isinstance(p_, tuple) and p_ and p_[0] == 'ctor' and p_[1].endswith('::Some'):
+                            somes = set()
+                            for cs_, lf_ in P.leaves(t_):
+                                if lf_ != ('none',):
+                                    for cc_ in cs_:
+                                        if cc_[0] == 'match':
+                                            kk = pat_ctor_kinds(cc_[2])
+                                            if kk:
+                                                somes |= kk
+                            if somes:
+                                ks = somes
+                elif pc[0] == 'nomatch':
+                    ks = pat_ctor_kinds(pc[2])
+                    pol = False
+                if ks is None or not (ks & allk):
+                    continue
+                if (kind in ks) != pol:
+                    return False
+            return True
+
+        def whole_function(kind, need_rec):
+            allk = set(arms)
+            ins_ = [n for n in walk(f.body) if n['k'] == 'mcall' and n['method'] == 'insert' and reachable_for(n, kind, allk)]
+            recs_ = [n for n in walk(f.body) if n['k'] in ('call', 'mcall') and ctx.pv.local_fns(n.get('callee')) and
+                     any('UsedTypes' in a_.get('ty', '') + a_.get('aty', '') for a_ in n['args']) and reachable_for(n, kind, allk)]
+            return bool(ins_) and (bool(recs_) or not need_rec)
         for kind, (eff, rec) in arms.items():
             inst = '%s/%s' % (short(f.path), kind)
+            if whole_function(kind, rec) and not any(
+                    any(alt[0] == 'ctor' and alt[1].split('::')[-1] == kind for alt in ((P.pat_summary(a['pat'])[1]) if P.pat_summary(a['pat'])[0] == 'or' else [P.pat_summary(a['pat'])]))
+                    and len([x for x in ((P.pat_summary(a['pat'])[1]) if P.pat_summary(a['pat'])[0] == 'or' else [P.pat_summary(a['pat'])])]) == 1
+                    for a in m['arms']):
+                # no arm of its own for this kind (shared arm, helper, guard): decided on the whole function
+                obs.append(ok('DEF-CLOSURE', inst, 'recorded%s (an insert%s is reachable for this kind)' % (' and descended into' if rec else '', ' and a recursive call' if rec else ''), f.loc))
+                continue
             arm = None
             for a in m['arms']:
                 ps = P.pat_summary(a['pat'])
@@ -701,7 +829,10 @@ def rule_def_closure(ctx):
             ins = [n for n in walk(arm['body']) if n['k'] == 'mcall' and n['method'] == 'insert']
             recs = [n for n in walk(arm['body']) if n['k'] in ('call', 'mcall') and ctx.pv.local_fns(n.get('callee')) and
                     any('UsedTypes' in a_.get('ty', '') + a_.get('aty', '') for a_ in n['args'])]
-            if not ins:
+            if (not ins or (rec and not recs)) and whole_function(kind, rec):
+                # the arm only selects what to record / descend into; the insert and the recursion follow the match
+                obs.append(ok('DEF-CLOSURE', inst, 'recorded%s (reachable for this kind after the dispatch)' % (' and descended into' if rec else ''), arm['body'].get('sp', '')))
+            elif not ins:
                 obs.append(bad('DEF-CLOSURE', inst, 'the %s arm records nothing as used' % kind, arm['body'].get('sp', ''), 'used type not defined (E0412)'))
             elif rec and not recs:
                 obs.append(bad('DEF-CLOSURE', inst, 'the %s arm does not descend into nested selections/fields' % kind, arm['body'].get('sp', ''), 'types used only deeper in the operation are not defined'))
@@ -772,6 +903,9 @@ def rule_derives(ctx):
         senv = {}
         ctx.pv.bind_params(f, f.params, [('param', f.key, 0, 'self'), x], senv, 0)
         t = ctx.pv.eval(f, f.body, senv, 0)
+        from .rules_hir7 import NameEval
+        if all(NameEval('*', 'ID', norm).ev(t) == {'ID'} for norm in ('None', 'Rust')):
+            good = True
         for conds, leaf in P.leaves(t):
             if leaf == x and any(c[0] == 'if' and c[2] and ('const', 'ID') in [s for s in P.subterms(c[1])] for c in conds):
                 good = True
